@@ -183,6 +183,33 @@ Theorem C20_wire_idempotent : forall t s v,
 Proof. exact text_idempotent. Qed.
 Print Assumptions C20_wire_idempotent.
 
+(* the model decoder, on ANY tree of the subset and whatever well-typed value the receiver held, yields a well-typed
+   value.  [ty_ok t] (Proofs/CodecDecP.v) is a fact of the Go type descriptor alone: the zero token of every opaque
+   leaf is a scalar token of the subset and member names are ASCII.  Both side conditions are necessary
+   (CodecDecP.dec_wt_needs_ty_ok, dec_wt_needs_subset) *)
+Require Import Verif.Proofs.CodecDecP.
+Theorem C20_decode_well_typed : forall t prev j v,
+  ty_ok t = true -> wt t prev = true -> wf_json j = true -> dec t prev j = Some v -> wt t v = true.
+Proof. exact dec_wt. Qed.
+Print Assumptions C20_decode_well_typed.
+
+(* EVERY byte string the decoder accepts gives a well-typed value whose texts and whose own encoding lie in the
+   modelled subset, so C20_wire_roundtrip / C20_wire_reencode apply to it *)
+Theorem C20_wire_decode_in_subset : forall t s v,
+  ty_ok t = true -> (ty_depth t <= max_depth)%N -> decode_text t s = Some v ->
+  wt t v = true /\ txt_ok t v = true /\ wf_json (enc t v) = true.
+Proof. exact decode_text_wt. Qed.
+Print Assumptions C20_wire_decode_in_subset.
+
+(* C20_wire_idempotent for every accepted byte string, no side condition on the accepted value: decoding what the
+   decoded value encodes to gives the value back (up to a nil Bytes coming back empty) and re-encoding gives the same
+   bytes *)
+Theorem C20_wire_idempotent_all : forall t s v,
+  wf_ty t = true -> ty_ok t = true -> (ty_depth t <= max_depth)%N -> decode_text t s = Some v ->
+  decode_text t (encode_text t v) = Some (norm t v) /\ encode_text t (norm t v) = encode_text t v.
+Proof. exact text_idempotent_all. Qed.
+Print Assumptions C20_wire_idempotent_all.
+
 (* ---------------- canonical order ---------------- *)
 (* commit: merkleroot.Outcome.Sort — any two arrangements of the same items (one per chain) sort identically *)
 Theorem C20_canonical_commit : forall (P Q R : Type) (o o' : mr_lists P Q R),
@@ -258,6 +285,22 @@ Theorem C20_judge_struct_foreign_model_passes : forall t v fb,
   struct_ok (t, v, Some fb) (struct_model (t, v, Some fb)) = true.
 Proof. exact struct_model_passes_foreign. Qed.
 Print Assumptions C20_judge_struct_foreign_model_passes.
+
+(* the premise of C20_judge_struct_foreign_model_passes discharged (C20_wire_decode_in_subset): on foreign bytes the
+   model's own answer passes struct_ok for every byte string, under conditions on the type descriptor alone *)
+Theorem C20_judge_struct_foreign_model_passes_all : forall t v fb,
+  wf_ty t = true -> ty_ok t = true -> (ty_depth t <= max_depth)%N ->
+  struct_ok (t, v, Some fb) (struct_model (t, v, Some fb)) = true.
+Proof. exact struct_model_passes_foreign_all. Qed.
+Print Assumptions C20_judge_struct_foreign_model_passes_all.
+
+(* honest and foreign cases at once; for honest cases the value is well typed with ASCII texts *)
+Theorem C20_judge_struct_model_passes_all : forall t v f,
+  wf_ty t = true -> ty_ok t = true -> (ty_depth t <= max_depth)%N ->
+  (f = None -> wt t v = true /\ txt_ok t v = true) ->
+  struct_ok (t, v, f) (struct_model (t, v, f)) = true.
+Proof. exact struct_model_passes_all. Qed.
+Print Assumptions C20_judge_struct_model_passes_all.
 
 (* honest value: C20_wire_roundtrip with the implementation's bytes b and the implementation's decoded value d;
    accepted foreign bytes: C20_wire_idempotent on the implementation's decoded value *)
